@@ -124,6 +124,22 @@ def gen_key_case(rnd):
     return gen_case(rnd)
 
 
+def gen_same_predicate_case(rnd):
+    """targeted family: the SAME predicate on two (or three) different models of one query -- as segments they carry the same name and the same SQL"""
+    for _ in range(40):
+        f = jg.gen_forest(rnd, nmodels=rnd.randint(2, 4), allow_m2m=False)
+        if len(f["models"]) < 2 or not f["links"]:
+            continue
+        c0, p0 = rnd.choice([(c, p) for (c, p, ty, comp) in f["links"]])
+        ms = [f["models"][c0]["name"], f["models"][p0]["name"]]
+        e = rnd.choice([("cmp", ">", jg.jcol("c1"), sg.lit(0)), ("not", ("isnull", jg.jcol("s0"))), ("cmp", "<>", jg.jcol("s0"), sg.lit("b")), ("in", jg.jcol("c1"), [0, 2])])
+        mm = rnd.choice(ms)
+        q = dict(dims=[(rnd.choice(ms), jg.jcol("s0"))] if rnd.random() < 0.6 else [], mets=[(mm, rnd.choice(["sum", "count", "max"]), jg.jcol("c0"), []), (mm, "count", None, [])],
+                 filters=[(m, e) for m in ms])
+        return f, q
+    return gen_case(rnd)
+
+
 def run_variant(f, q, variant):
     """execute the query with its filters written in one of several equivalent ways; returns sorted canonical rows"""
     from sidemantic.core.segment import Segment
@@ -138,9 +154,16 @@ def run_variant(f, q, variant):
     elif variant == "conj":
         filters = [" AND ".join(fsql(e, m + ".") for m, e in fl)]
     elif variant in ("segment_model", "segment_bare"):
+        # the same predicate text gets the same segment NAME on every model that carries it (a soft-delete `live` segment declared on several models)
+        texts = []
         for i, (m, e) in enumerate(fl):
-            extra.setdefault(m, {}).setdefault("segments", []).append(Segment(name="sg%d" % i, sql=fsql(e, "{model}." if variant == "segment_model" else "")))
-            segments.append("%s.sg%d" % (m, i))
+            t = fsql(e, "{model}." if variant == "segment_model" else "")
+            if t not in texts:
+                texts.append(t)
+            nm = "sg%d" % texts.index(t)
+            if not any(sgm.name == nm for sgm in extra.get(m, {}).get("segments", [])):
+                extra.setdefault(m, {}).setdefault("segments", []).append(Segment(name=nm, sql=t))
+            segments.append("%s.%s" % (m, nm))
     L = jg.real_layer(f, mbm, dbm, extra_model_kw=extra)
     sql = L.compile(metrics=mrefs, dimensions=drefs, filters=filters, segments=segments or None)
     cur = L.conn.execute(sql)
@@ -169,7 +192,7 @@ def run(c):
     c.trusted.append("translator/pyinterp.py + gen_classify.py (fail-closed definitional interpreter; sqlglot's parse trees are scripted: the table covers the method's own logic, not sqlglot's parser)")
     c.build_props()
     n = 120 if c.tier == "quick" else 1500
-    cases = [gen_case(c.rng) for _ in range(n)] + [gen_key_case(c.rng) for _ in range(n // 6)]
+    cases = [gen_case(c.rng) for _ in range(n)] + [gen_key_case(c.rng) for _ in range(n // 6)] + [gen_same_predicate_case(c.rng) for _ in range(n // 8)]
     outs = None
     if lib.coq_make(["Proofs/C02_proofs.vo", "Model/Plan.vo"])[0]:
         try:
